@@ -39,48 +39,48 @@ type Phantom struct {
 
 // Result is the outcome of analysing one root along one decision path.
 type Result struct {
-	Root      *load.FuncInfo
-	RootName  string
-	Recv      *Object
-	Params    []Value
+	Root         *load.FuncInfo
+	RootName     string
+	Recv         *Object
+	Params       []Value
 	ParamStreams []*Stream
-	Ret       Value
-	Streams   []*Stream
-	Stages    []*Stage
-	Undecided []Undecided
-	Phantoms  []Phantom
-	G         *lin.Ctx
-	PathConds []string
-	Notes     []string
-	Objects   []*Object
-	RootFrame *Frame
-	Reports   []*Report
-	N         *lin.Expr
-	Idle      *lin.Expr // the receiver's IdlePeriod() (nil when the type has none or it is not evaluable)
-	HasIdle   bool      // the receiver type declares IdlePeriod
+	Ret          Value
+	Streams      []*Stream
+	Stages       []*Stage
+	Undecided    []Undecided
+	Phantoms     []Phantom
+	G            *lin.Ctx
+	PathConds    []string
+	Notes        []string
+	Objects      []*Object
+	RootFrame    *Frame
+	Reports      []*Report
+	N            *lin.Expr
+	Idle         *lin.Expr // the receiver's IdlePeriod() (nil when the type has none or it is not evaluable)
+	HasIdle      bool      // the receiver type declares IdlePeriod
 }
 
 type Interp struct {
 	Prog *load.Program
 	Mode Mode
 
-	G        *lin.Ctx
-	gsyms    map[lin.Sym]bool
-	script   []int
-	pos      int
-	pending  [][]int
-	res      *Result
-	nStream  int
-	nStage   int
-	nFork    int
-	nOpq     int
-	ordCache map[*ast.FuncDecl]map[*ast.CallExpr]string
-	goOrd    map[*ast.FuncDecl]map[*ast.GoStmt]string
-	ParamDomain map[string]int64 // root int parameter name -> lower bound
-	DistinctLens bool            // every channel parameter has its own length and capacity symbol
-	MaxPaths int
-	callDepth int
-	states   map[*Stage]*stState
+	G            *lin.Ctx
+	gsyms        map[lin.Sym]bool
+	script       []int
+	pos          int
+	pending      [][]int
+	res          *Result
+	nStream      int
+	nStage       int
+	nFork        int
+	nOpq         int
+	ordCache     map[*ast.FuncDecl]map[*ast.CallExpr]string
+	goOrd        map[*ast.FuncDecl]map[*ast.GoStmt]string
+	ParamDomain  map[string]int64 // root int parameter name -> lower bound
+	DistinctLens bool             // every channel parameter has its own length and capacity symbol
+	MaxPaths     int
+	callDepth    int
+	states       map[*Stage]*stState
 }
 
 func NewInterp(p *load.Program, m Mode) *Interp {
